@@ -38,26 +38,33 @@ class _Coll:
 
 
 class _Prefix:
-    __slots__ = ("owed", "discard")
+    __slots__ = ("owed", "discard", "kind")
 
-    def __init__(self, owed, discard=False):
-        self.owed, self.discard = owed, discard
+    def __init__(self, owed, discard=False, kind="other"):
+        self.owed, self.discard, self.kind = owed, discard, kind
 
 
 def scan(text: str) -> Verdict:
     stack = []
     i, n = 0, len(text)
 
-    def form_done(tok=None):
+    abort = []
+
+    def form_done(tok=None, metaable=True):
         """a complete form was just read: satisfy pending prefixes (innermost first), then count it as
-        an element of the enclosing collection (tok: the form's text when it is a plain atom)"""
+        an element of the enclosing collection (tok: the form's text when it is a plain atom; metaable:
+        whether the form can carry metadata - collections and symbols can, other atoms cannot)"""
         while stack and isinstance(stack[-1], _Prefix):
             top = stack[-1]
             top.owed -= 1
             if top.owed > 0:
                 return
             stack.pop()
-            tok = None
+            if top.kind == "meta" and not metaable:
+                # the reader rejects this right here, whatever follows
+                abort.append(Verdict("unknown", "metadata on a form that cannot carry it", i))
+                return
+            tok, metaable = None, True
             if top.discard:
                 return      # a discarded form is not a form for whatever encloses it
         if stack and isinstance(stack[-1], _Coll):
@@ -99,7 +106,9 @@ def scan(text: str) -> Verdict:
             if not closed:
                 return Verdict("incomplete", "inside string", i)
             i = j + 1
-            form_done()
+            form_done(metaable=False)
+            if abort:
+                return abort[0]
             continue
         if c in OPEN:
             stack.append(_Coll(OPEN[c], "map" if c == "{" else "seq"))
@@ -117,13 +126,18 @@ def scan(text: str) -> Verdict:
                 return Verdict("unknown", "malformed reader conditional", i)
             i += 1
             form_done()
+            if abort:
+                return abort[0]
             continue
         if c in "'`@":
-            stack.append(_Prefix(1))
+            stack.append(_Prefix(1, kind="sq" if c == "`" else "other"))
             i += 1
             continue
         if c == "~":
-            i += 2 if text[i + 1:i + 2] == "@" else 1
+            splice = text[i + 1:i + 2] == "@"
+            if splice and stack and isinstance(stack[-1], _Prefix) and stack[-1].kind == "sq":
+                return Verdict("unknown", "splice directly under a syntax quote", i)
+            i += 2 if splice else 1
             stack.append(_Prefix(1))
             continue
         if c == "^":
@@ -132,7 +146,7 @@ def scan(text: str) -> Verdict:
             nxt = text[i + 1:].lstrip(WS)[:1]
             if nxt and not (nxt.isalpha() or nxt in ":{["):
                 return Verdict("unknown", "metadata form of unknown kind", i)
-            stack.append(_Prefix(2))
+            stack.append(_Prefix(2, kind="meta"))
             i += 1
             continue
         if c == "\\":
@@ -144,7 +158,9 @@ def scan(text: str) -> Verdict:
             if j - (i + 1) != 1:
                 return Verdict("unknown", "named/long character literal", i)
             i = j
-            form_done()
+            form_done(metaable=False)
+            if abort:
+                return abort[0]
             continue
         if c == "#":
             d = text[i + 1:i + 2]
@@ -178,7 +194,9 @@ def scan(text: str) -> Verdict:
         if not _plain_atom(tok):
             return Verdict("unknown", f"atom {tok!r}", i)
         i = j
-        form_done(tok)
+        form_done(tok, metaable=not (tok.startswith(":") or tok in ("nil", "true", "false") or tok.lstrip("+-")[:1].isdigit()))
+        if abort:
+            return abort[0]
     if stack:
         top = stack[-1]
         if isinstance(top, _Prefix):
